@@ -63,14 +63,17 @@ Definition cflist_eqb (a b : cflist) : bool :=
   | _, _ => false
   end.
 
+Definition zidx_opt {A} (l : list A) (i : Z) : option A :=
+  if (i <? 0) || (Z.of_nat (length l) <=? i) then None else nth_error l (Z.to_nat i).
+
 (* lookup answers are right for the table *)
 Definition matches_freq (t : list channel) (f : Z) (default : bool) (i : Z) : bool :=
-  match (if i <? 0 then None else nth_error t (Z.to_nat i)) with
+  match zidx_opt t i with
   | Some c => (freq c =? f) && negb (Bool.eqb (custom c) default)
   | None => false
   end.
 Definition matches_freq_dr (t : list channel) (f dr : Z) (i : Z) : bool :=
-  match (if i <? 0 then None else nth_error t (Z.to_nat i)) with
+  match zidx_opt t i with
   | Some c => (freq c =? f) && (minDR c <=? dr) && (dr <=? maxDR c)
   | None => false
   end.
